@@ -131,6 +131,15 @@ SPECS = {
     "reverse": dict(expr="xs|reverse|list", exp=lambda xs, ys, n, m, b1, b2: [xs[len(xs) - 1 - i] for i in range(len(xs))]),
     "first": dict(expr="xs|first", exp=lambda xs, ys, n, m, b1, b2: xs[0] if xs else ("<undefined>",)),
     "last": dict(expr="xs|last", seq_only=True, exp=lambda xs, ys, n, m, b1, b2: xs[-1] if xs else ("<undefined>",)),
+    # reversible inputs that are not sequences (a dict iterates its keys in insertion order); keys are fixed strings, values symbolic
+    "last_dict": dict(expr="d|last", seq_only=True, ctx=lambda xs, ys, n, m, b1, b2: dict(d={"k%d" % i: x for i, x in enumerate(xs)}),
+                      exp=lambda xs, ys, n, m, b1, b2: "k%d" % (len(xs) - 1) if xs else ("<undefined>",)),
+    "first_dict": dict(expr="d|first", seq_only=True, ctx=lambda xs, ys, n, m, b1, b2: dict(d={"k%d" % i: x for i, x in enumerate(xs)}),
+                       exp=lambda xs, ys, n, m, b1, b2: "k0" if xs else ("<undefined>",)),
+    "reverse_dict": dict(expr="d|reverse|list", seq_only=True, ctx=lambda xs, ys, n, m, b1, b2: dict(d={"k%d" % i: x for i, x in enumerate(xs)}),
+                         exp=lambda xs, ys, n, m, b1, b2: ["k%d" % i for i in range(len(xs) - 1, -1, -1)]),
+    "last_items": dict(expr="d.items()|last", seq_only=True, ctx=lambda xs, ys, n, m, b1, b2: dict(d={"k%d" % i: x for i, x in enumerate(xs)}),
+                       exp=lambda xs, ys, n, m, b1, b2: ["k%d" % (len(xs) - 1), xs[-1]] if xs else ("<undefined>",)),
     "min": dict(expr="xs|min", exp=lambda xs, ys, n, m, b1, b2: min(xs) if xs else ("<undefined>",)),
     "max": dict(expr="xs|max", exp=lambda xs, ys, n, m, b1, b2: max(xs) if xs else ("<undefined>",)),
     "min_attr": dict(expr="xs|min(attribute='k')", items=True,
